@@ -379,19 +379,35 @@ pub fn record_relayout(args: &[String]) {
     let mut r = StdRng::seed_from_u64(seed);
     let progs: Vec<String> = crate::corpus::programs().into_iter().filter(|p| p.chars().count() < 700).collect();
     let mut out = String::new();
-    let mut n = 0;
-    while n < count {
+    let mut pairs: Vec<(String, String)> = vec![];
+    // a separating line break before / after every kind of word that BEGINS or ENDS like a keyword, against the same program
+    // written with `;` (the layout rule speaks about whole words)
+    for w in ["thence", "elsewhere", "then_", "else1", "iffy", "typed", "integer", "booleans", "truest", "falsely", "athen", "nelse", "_then", "thenelse", "ifthen"] {
+        pairs.push((format!("x = 2; {w} = 3; x + {w}"), format!("x = 2\n{w} = 3\nx + {w}")));
+        pairs.push((format!("{w} = 2; x = {w}; x + {w}"), format!("{w} = 2\nx = {w}\n{w} + x")));
+        pairs.push((format!("{w} = 2; x = {w}; {w}"), format!("{w} = 2\nx = {w}\n{w}")));
+        pairs.push((format!("x = if true then {w} else 3; x"), format!("x = if true then {w} else 3\nx")));
+    }
+    pairs.retain(|(a, b)| {
+        // only pairs whose `;` form the front end reads (free names are in scope errors either way; what matters is the tokens)
+        tokenizer::tokenize(None, a).is_ok() && tokenizer::tokenize(None, b).is_ok()
+    });
+    pairs.truncate(count);
+    while pairs.len() < count {
         let a0 = progs.choose(&mut r).unwrap();
         // half of the programs get their identifiers renamed to names that BEGIN with a keyword (whole-word matching is part of
         // the layout rule too: a line break before `thence` separates, a line break before `then` does not)
         let renamed = if r.gen_bool(0.5) { keywordish_names(&mut r, a0) } else { None };
         let a = renamed.as_ref().unwrap_or(a0);
         let Some(b) = relayout(&mut r, a) else { continue };
-        let (mut oa, mut ob) = (observe(a), observe(&b));
+        pairs.push((a.clone(), b));
+    }
+    for (a, b) in &pairs {
+        let (mut oa, mut ob) = (observe(a), observe(b));
         for o in [&mut oa, &mut ob] {
             o.as_object_mut().unwrap().remove("first_msg");
         }
-        let (pa, pb) = (parse_digest(a), parse_digest(&b));
+        let (pa, pb) = (parse_digest(a), parse_digest(b));
         // digests are compared by the trace specification; long digests are shortened to a hash to keep events small
         let h = |s: &str| {
             use std::hash::{Hash, Hasher};
@@ -399,8 +415,7 @@ pub fn record_relayout(args: &[String]) {
             s.hash(&mut d);
             format!("{}:{:x}", s.split(':').next().unwrap(), d.finish())
         };
-        out += &format!("{}\n", json!({"ev":"relayout","ta":text_chars(a),"tb":text_chars(&b),"a":oa,"b":ob,"pa":h(&pa),"pb":h(&pb)}));
-        n += 1;
+        out += &format!("{}\n", json!({"ev":"relayout","ta":text_chars(a),"tb":text_chars(b),"a":oa,"b":ob,"pa":h(&pa),"pb":h(&pb)}));
     }
     std::fs::write(&args[2], out).unwrap();
 }
